@@ -19,7 +19,8 @@ claim("C16",
       "on_exit is called from exactly the front-ends, once, outside loops, on every non-unwind path after user code may have run "
       "(`?` exits discharged only by callee summaries computed from MIR); only on_exit fires the EXIT handler; enter/leave and $? "
       "save/restore bracket every handler run; exec never reaches the hook; on_exit turns an `exit` of the handler into the final status "
-      "(not so today: known finding, the suite pins it). This is the all-paths quantifier the tests cannot reach; "
+      "(not so today: known finding, the suite pins it); the per-signal in-progress marks are set on push, removed (own signal only) on pop and cleared "
+      "only on a cloned stack. This is the all-paths quantifier the tests cannot reach; "
       "it is a necessary condition for 'exactly once', not the runtime behaviour itself.",
       "Trusted: rustc MIR and callee resolution; await modelled as the call of the awaited fn; unwind/cancellation edges are not exits. "
       "Not decided: output ordering, $? value seen by the handler, handler-calls-exit semantics, errexit/nounset termination inside the interpreter.",
@@ -96,7 +97,8 @@ claim("C17",
       "Decides that every tokio::spawn in brush_core is registered as a job on all paths / joined in place / a reviewed detached spawn, "
       "that wait→wait_all→Job::wait→JobTask::wait is a chain of awaits inside loops whose only exit is exhaustion (no error exit leaves "
       "early, awaited tasks are always removed, no link polls), and that a new job's number is an upper bound of all live numbers (maximum "
-      "over the whole table or a growing counter) while jobs can leave the table from the middle.",
+      "over the whole table or a growing counter) while jobs can leave the table from the middle, and that bare `wait` reaches wait_all on every "
+      "non-error path (no shortcut on a summary of the job table).",
       "Trusted: rustc MIR; tokio JoinHandle semantics. Not decided: happens-before of job effects, output ordering, schedules.",
       ST + "forward taint + PAIR + loop-exit analysis + def-use", "DESIGN.md §3 C17")
 claim("C20",
@@ -166,7 +168,8 @@ claim("C13",
       "Decides that the quoting character tables cover the reader's word-breaking characters (each listed with its reason) including a "
       "leading `#`/`~`, that each quoting style escapes what it cannot hold, that the one-byte octal fallback of ANSI-C quoting is applied "
       "only to characters the selecting predicate keeps within ASCII, and that every Display-formatted argument of the re-readable "
-      "printers that derives from a user value passes through the quoting module (or the complete single-quote replace idiom).",
+      "printers that derives from a user value passes through the quoting module (or the complete single-quote replace idiom), and that the "
+      "`set -x` rendering of an assignment literal writes every key and element through the quoting helper.",
       "Trusted: rustc MIR; std's documented char classes (is_ascii_control, is_control). Known finding: trap -p prints the handler raw (the suite pins it as "
       "known_failure). Not decided: the round trip itself for all strings; bash as the reader.",
       ST + "SwitchInt character-table extraction + backward flow from format arguments", "DESIGN.md §3 C13")
@@ -185,7 +188,8 @@ claim("C15",
       "Decides that every parameter of each of the six memoised functions flows into the key of cache_get and cache_set, that workspace "
       "key component types derive Hash/PartialEq/Eq, that the memoised computations (966 reachable bodies) read no mutable static, "
       "thread-local or ambient-state API, and that every parse inside the stdin completeness decision is given the accumulated input or "
-      "a prefix of it (never a tail or a single line, whose tokenizer context would be lost).",
+      "a prefix of it (never a tail or a single line, whose tokenizer context would be lost); that memo keys are injective images of the inputs; "
+      "and that SourcePosition.index (a character count) is nowhere compared with a byte length or used as a byte offset.",
       "Trusted: rustc MIR; cached::SizedCache key semantics. Not decided: equality of outputs across delivery modes, $LINENO, the "
       "complete/incomplete classification.",
       ST + "backward taint to memo keys, derive inspection, call-graph purity closure", "DESIGN.md §3 C15")
